@@ -438,3 +438,67 @@ def _empty_arm_of_nonempty_list(b, bb):
                 if r:
                     return r
     return None
+
+
+def r11_7(ctx):
+    """The root identifies "the best move of the last pass" by the whole move descriptor (C11 "a mate in one
+    is always played", C03/C07 "the move handed back when time runs out is the best known one"): every pass
+    over the root moves starts with alpha at its floor, so the *first* root move of a pass is accepted and
+    sent whatever it is worth.  That is safe only because the previous pass's best move is ordered first -
+    and the four promotions of one pawn step share (from, to): a comparison of two positions' `last_move`
+    that selects the move to be ordered first must also compare `pawn_promotion`, otherwise the pass
+    starts with the queen promotion when the under-promotion was best (e.g. a knight promotion that
+    mates), and a clock expiry before that move is re-found plays the wrong one."""
+    from wa.expr import Exprs, strip_refs, root_local, subexprs
+    f = ctx.facts
+    if not f.has_body(GBM):
+        raise AnchorMissing(GBM)
+    n = 0
+    cands = [GBM] + sorted(x for x in f.body_names() if x.startswith(GBM + "::{closure"))
+    for fn in cands:
+        b = f.body(fn)
+        ctx.note_fn(fn)
+        ex = Exprs(b)
+
+        def field_cmp(d, name):
+            """roots (a, b) when d is `x.<name> == y.<name>` on two different position values."""
+            d = strip_refs(d)
+            if d[0] == "call" and "PartialEq" in d[1] and d[1].endswith("::eq") and len(d[2]) == 2:
+                l, r = strip_refs(d[2][0]), strip_refs(d[2][1])
+            elif d[0] == "bin" and d[1] == "Eq":
+                l, r = strip_refs(d[2]), strip_refs(d[3])
+            else:
+                return None
+            if l[0] == "field" and r[0] == "field" and l[2] == name and r[2] == name:
+                return (l[1], r[1])
+            return None
+        sw = []
+        for s in sorted(b.normal):
+            if s in b.reachable and b.term(s)["k"] == "switch":
+                sw.append((s, ex.switch_discr(s)))
+        promo = [(s, field_cmp(d, "pawn_promotion")) for s, d in sw if field_cmp(d, "pawn_promotion")]
+        for s, d in sw:
+            lm = field_cmp(d, "last_move")
+            if not lm:
+                continue
+            n += 1
+            tt = b.term(s)
+            cases = dict(tt["cases"])
+            true_t = tt["otherwise"] if 0 in cases and 1 not in cases else cases.get(1, tt["otherwise"])
+            # writes of the ordering key control-dependent on the comparison
+            eff = [loc for loc, st in b.iter_stmts() if st["k"] == "assign" and any(p.get("name") == "order_heuristic" for p in st["place"]["proj"] if p["k"] == "field")
+                   and (loc[0] == true_t or b.edge_dominates((s, true_t), loc[0]))]
+            if not eff:
+                continue
+            ok = False
+            for s2, pr in promo:
+                tt2 = b.term(s2)
+                c2 = dict(tt2["cases"])
+                t2 = tt2["otherwise"] if 0 in c2 and 1 not in c2 else c2.get(1, tt2["otherwise"])
+                if all(loc[0] == t2 or b.edge_dominates((s2, t2), loc[0]) for loc in eff):
+                    ok = True
+            ctx.ob("%s:best-move-identified-by-whole-descriptor#%d" % (fn.split("::")[-1], n), ok, b.where(b.term_loc(s)),
+                   "the move ordered first in the next pass is selected by `last_move`%s" % (" and `pawn_promotion`" if ok else
+                   " alone: the four promotions of one pawn step are indistinguishable, so after an under-promotion was best (a knight promotion that mates) the next pass starts with - accepts and sends - the queen promotion; an expiry before the real best move is re-found plays it"))
+    if n == 0:
+        ctx.ob("get_best_move:best-move-identification", True, f.body(GBM).file, "no comparison of `last_move` selects a root move (whole positions or indices are used)", nontrivial=False)
